@@ -32,7 +32,12 @@ try:
     def demo():
         return subprocess.run(["/venv/bin/python", "SEEDED/demo.py"], cwd=wt, env=env, capture_output=True, text=True, timeout=600)
     r = demo(); res["demo_unpatched_rc"] = r.returncode
-    ap_ = subprocess.run(["git", "-C", wt, "apply", os.path.join(sd, "patch.diff")], capture_output=True, text=True)
+    # a change written against an earlier HEAD may have been ported by hand (same edit, new context)
+    patch = os.path.join(sd, "patch.ported.diff")
+    if not os.path.exists(patch):
+        patch = os.path.join(sd, "patch.diff")
+    res["patch_file"] = os.path.basename(patch)
+    ap_ = subprocess.run(["git", "-C", wt, "apply", patch], capture_output=True, text=True)
     res["patch_applies"] = ap_.returncode == 0
     if ap_.returncode != 0:
         res["apply_err"] = ap_.stderr[-300:]
